@@ -26,7 +26,9 @@ RULE = (
     "connection (epochs >=1) + up to 8 session ops (read attr, set attr, expire(obj[,attrs]), expire_all, refresh(obj[,attrs]), select with/without "
     "populate_existing, flush) + commit|rollback; session config autoflush x expire_on_commit drawn. Non-trivial: at least one read whose expected "
     "value is only right if reload/no-reload is decided correctly (fresh value differs from the value held before, stale value differs from the "
-    "database, pending value survives a partial expire/refresh of a sibling attribute, or ObjectDeletedError); distinct = canonical JSON of the program"
+    "database, pending value survives a partial expire/refresh of a sibling attribute, or ObjectDeletedError). The select may also be a populate_existing statement "
+    "whose row carries the key only (from_statement(text)). Sub-check inherit: the same machine on a joined-inheritance SubItem(Item) (one column per table) with populate_existing "
+    "queries against the base class (row lacks the subclass column), the subclass, and a key-only text statement; distinct = canonical JSON of the program"
 )
 ASSUMPTIONS = [
     "external writes happen only while the session has no open transaction (right after commit/rollback); SQLite file database, rollback-journal mode",
@@ -38,6 +40,9 @@ ASSUMPTIONS = [
     "when an expired attribute is physically re-loaded within a transaction (sibling access, a query returning the identity, a flush needing "
     "the key) is the implementation's choice: the public inspect(obj).unloaded selects the model branch (SQL/autoflush or not, what survives a "
     "commit without expiry), the expected value always comes from the model",
+    "populate_existing 'fully refreshes' the returned instances: an attribute whose column is not in the statement's row (base-class query on a joined-inheritance subclass, "
+    "key-only text statement) cannot be refreshed from it and must not keep its old or pending value - it is expired; load_only/defer + populate_existing is NOT generated "
+    "(documented as a way to select which attributes get refreshed, the others keep their value)",
     "documented behaviours relied on: a plain query never overwrites loaded or pending attributes; populate_existing erases pending changes and "
     "resets lazy collections; refresh() expires first, then autoflushes, then loads; rollback() without a transaction in progress is a "
     "pass-through; setting an attribute to its loaded value is no net change (no UPDATE)",
@@ -121,7 +126,7 @@ def _names_from_mask(mask, names):
 
 
 def check(case, ctx):
-    from sqlalchemy import inspect, select
+    from sqlalchemy import inspect, select, text
     from sqlalchemy.exc import InvalidRequestError
     from sqlalchemy.orm import Session
     from sqlalchemy.orm.exc import ObjectDeletedError
@@ -298,10 +303,15 @@ def check(case, ctx):
                     continue
                 if kind == "q":
                     pe = bool(op[1])
+                    partial = op[1] == 2  # populate_existing with a statement whose row carries the primary key only
                     ids = [i + 1 for i in range(n_p) if op[2] >> i & 1] or None
-                    stmt = select(P).order_by(P.id)
-                    if ids is not None:
-                        stmt = stmt.where(P.id.in_(ids))
+                    if partial:
+                        where_ids = "" if ids is None else " WHERE id IN (%s)" % ", ".join(str(i) for i in ids)
+                        stmt = select(P).from_statement(text("SELECT id FROM parent" + where_ids + " ORDER BY id"))
+                    else:
+                        stmt = select(P).order_by(P.id)
+                        if ids is not None:
+                            stmt = stmt.where(P.id.in_(ids))
                     if pe:
                         stmt = stmt.execution_options(populate_existing=True)
                     got = sess.scalars(stmt).all()
@@ -310,13 +320,21 @@ def check(case, ctx):
                     if [id(o) for o in got] != [id(objs[pid]) for pid in exp_ids]:
                         fail("C46/query/result-identities", f"{where}: query returned {got}, expected the session's instances for ids {exp_ids}", observed=repr(got), expected=exp_ids)
                     for pid in exp_ids:
-                        if pe:
+                        if partial:
+                            # "fully refreshed - erasing any existing data (including pending changes)": what the row does not
+                            # carry cannot be refreshed from it, so it must not keep its old value either -> expired
+                            if any(m.st[pid][a][0] in ("L", "P") for a in COLS):
+                                classes.add("pe-partial-row-over-loaded")
+                            m.mark(pid, "id", ("L", pid), "populate_existing-partial-row")
+                            for a in COLS + ["children"]:
+                                m.mark(pid, a, ("E",), "populate_existing-partial-row")
+                        elif pe:
                             for a in SCALARS:
                                 m.mark(pid, a, ("L", pid if a == "id" else m.db[pid][a]), "populate_existing")
                             m.mark(pid, "children", ("E",), "populate_existing")
                         # a plain query may fill unloaded attributes of an identity it returns (resolved lazily,
                         # see resolve()); it must not touch loaded or pending ones (their model state is kept)
-                    classes.add("query-pe" if pe else "query-plain")
+                    classes.add("query-pe-partial-row" if partial else "query-pe" if pe else "query-plain")
                     continue
                 pid = op[1] % n_p + 1
                 obj = objs[pid]
@@ -452,19 +470,19 @@ def _programs(draw):
             elif k == "f":
                 ops.append(["f", draw(oi), draw(st.sampled_from(_REF_MASKS))])
             elif k == "q":
-                ops.append(["q", draw(st.integers(0, 1)), draw(st.integers(0, 2**n_p - 1))])
+                ops.append(["q", draw(st.sampled_from([0, 1, 2, 1, 2])), draw(st.integers(0, 2**n_p - 1))])
             elif k == "M":
                 # motif: pending change on one attribute, then something that reloads/expires (part of) the same
                 # object, then read both the pending attribute and a sibling
                 o, a = draw(oi), draw(ci)
                 b = (a + draw(st.integers(1, 2))) % 3
                 ops.append(["s", o, a, draw(_val)])
-                how = draw(st.sampled_from(["e", "e", "f", "f", "q0", "q1", "ea", "fl"]))
+                how = draw(st.sampled_from(["e", "e", "f", "f", "q0", "q1", "q2", "ea", "fl"]))
                 if how == "e":
                     ops.append(["e", o, draw(st.sampled_from([1 << (b + 1), 1 << (b + 1), 1 << (b + 1) | 16, 1 << (b + 1) | 1, 14 ^ (1 << (a + 1))]))])
                 elif how == "f":
                     ops.append(["f", o, draw(st.sampled_from([1 << (b + 1), 1 << (b + 1), 1 << (b + 1) | 1, 14 ^ (1 << (a + 1))]))])
-                elif how in ("q0", "q1"):
+                elif how in ("q0", "q1", "q2"):
                     ops.append(["q", int(how[1]), draw(st.integers(0, 2**n_p - 1))])
                 else:
                     ops.append([how])
@@ -476,5 +494,222 @@ def _programs(draw):
     return {"cfg": cfg, "rows": rows, "kids": kids, "epochs": epochs}
 
 
+# ====================================================================== joined-table inheritance
+IATTRS = ["a", "s"]  # a: column of the base table (item), s: column of the subclass table (subitem)
+
+
+def check_inherit(case, ctx):
+    """Same state machine on SubItem(Item) objects.  The point: a populate_existing query against the *base* class (or a
+    statement that returns the key only) yields rows that lack some of the object's columns; those attributes cannot be
+    refreshed from the row and must therefore not keep their stale value - they end up expired and the next read shows the
+    database."""
+    from sqlalchemy import inspect, select, text
+    from sqlalchemy.orm import Session
+
+    fam = F.family()
+    Item, Sub = fam.Item, fam.SubItem
+    n = len(case["rows"])
+    db = {i + 1: {"a": r[0], "s": r[1]} for i, r in enumerate(case["rows"])}
+    committed = {k: dict(v) for k, v in db.items()}
+    cfg = case["cfg"]
+    st_ = {}  # (oid, attr) -> ("L", v) | ("P", v, orig) | ("E",)
+    why = {}
+    classes = set()
+    flags = {"fresh": False, "stale": False, "lacking": False}
+    in_txn = [False]
+    eng = F.new_db(ctx, fam)
+    rc = F.raw(eng)
+    sess = None
+
+    def mark(k, state, reason):
+        st_[k] = state
+        why[k] = reason
+
+    def flush_model():
+        for (oid, a), v in sorted(st_.items()):
+            if v[0] == "P":
+                in_txn[0] = True
+                if v[2] == NOVAL or v[2] != v[1]:
+                    db[oid][a] = v[1]
+                mark((oid, a), ("L", v[1]), "flush")
+
+    def sql():
+        in_txn[0] = True
+        if cfg["autoflush"]:
+            flush_model()
+
+    def fail(sig, msg, observed=None, expected=None):
+        ctx.note(case, True, classes=classes)
+        raise Violation(sig, msg, observed=observed, expected=expected)
+
+    try:
+        F.raw_insert(rc, "item", [dict(id=k, kind="sub", a=v["a"]) for k, v in db.items()])
+        F.raw_insert(rc, "subitem", [dict(id=k, s=v["s"]) for k, v in db.items()])
+        sess = Session(eng, autoflush=cfg["autoflush"], expire_on_commit=cfg["eoc"])
+        objs = {o.id: o for o in sess.scalars(select(Sub).order_by(Sub.id))}  # subclass query: row carries both tables
+        in_txn[0] = True
+        prev = {}
+        for oid in objs:
+            for a in IATTRS:
+                mark((oid, a), ("L", db[oid][a]), "initial-load")
+                prev[(oid, a)] = db[oid][a]
+
+        def resolve(oid, a, where):
+            if st_[(oid, a)][0] == "E" and a not in inspect(objs[oid]).unloaded:
+                mark((oid, a), ("L", db[oid][a]), why[(oid, a)] + "+side-load")
+
+        def read(oid, a, where):
+            was_e = st_[(oid, a)][0] == "E"
+            resolve(oid, a, where)
+            v = st_[(oid, a)]
+            reason = why[(oid, a)]
+            if v[0] == "E":
+                sql()
+                exp = db[oid][a]
+                mark((oid, a), ("L", exp), "expired-load")
+            else:
+                exp = v[1]
+                if v[0] == "L" and not was_e and db[oid][a] != exp:
+                    flags["stale"] = True
+            if was_e and prev[(oid, a)] != exp:
+                flags["fresh"] = True
+            got = getattr(objs[oid], a)
+            if got != exp:
+                fail(f"C46/inherit/read/{v[0]}-after-{reason}/value", f"{where}: SubItem#{oid}.{a} (model state {v[0]} since {reason}) is {got!r}, expected {exp!r}; database {db[oid]}",
+                     observed=got, expected=exp)
+            prev[(oid, a)] = got
+
+        for ei, ep in enumerate(case["epochs"]):
+            if ei > 0:
+                for xo in ep["ext"]:
+                    oid, a = xo[0] % n + 1, IATTRS[xo[1] % 2]
+                    rc.execute(f"UPDATE {'item' if a == 'a' else 'subitem'} SET {a} = ? WHERE id = ?", (xo[2], oid))
+                    db[oid][a] = xo[2]
+                committed = {k: dict(v) for k, v in db.items()}
+            for oi, op in enumerate(ep["ops"]):
+                where = f"epoch {ei} op {oi} {op}"
+                k = op[0]
+                if k == "fl":
+                    sess.flush()
+                    flush_model()
+                    continue
+                if k == "q":
+                    how = ["base", "base-pe", "sub-pe", "text-pe", "base-pe", "text-pe"][op[1] % 6]
+                    if how.startswith("base"):
+                        stmt = select(Item).order_by(Item.id)  # row: item columns only
+                    elif how.startswith("sub"):
+                        stmt = select(Sub).order_by(Sub.id)  # row: item + subitem columns
+                    else:
+                        stmt = select(Item).from_statement(text("SELECT id, kind FROM item ORDER BY id"))  # row: key + discriminator
+                    if how.endswith("pe"):
+                        stmt = stmt.execution_options(populate_existing=True)
+                    got = sess.scalars(stmt).all()
+                    sql()
+                    if [id(o) for o in got] != [id(objs[i]) for i in sorted(objs)]:
+                        fail("C46/inherit/query/result-identities", f"{where}: query returned {got}")
+                    if how.endswith("pe"):
+                        carried = {"base-pe": ["a"], "sub-pe": ["a", "s"], "text-pe": []}[how]
+                        for oid in objs:
+                            for a in IATTRS:
+                                if a in carried:
+                                    mark((oid, a), ("L", db[oid][a]), "populate_existing")
+                                else:
+                                    if st_[(oid, a)][0] in ("L", "P"):
+                                        flags["lacking"] = True
+                                        classes.add("pe-base-row-lacks-subclass-column" if how == "base-pe" else "pe-key-only-statement")
+                                    mark((oid, a), ("E",), f"populate_existing({how}: column not in the row)")
+                    classes.add("query-" + how)
+                    continue
+                oid = op[1] % n + 1
+                obj = objs[oid]
+                if k == "r":
+                    read(oid, IATTRS[op[2] % 2], where)
+                elif k == "s":
+                    a = IATTRS[op[2] % 2]
+                    setattr(obj, a, op[3])
+                    v = st_[(oid, a)]
+                    mark((oid, a), ("P", op[3], v[1] if v[0] == "L" else (v[2] if v[0] == "P" else NOVAL)), "set")
+                    in_txn[0] = True
+                    prev[(oid, a)] = op[3]
+                elif k == "e":
+                    attrs = [a for i, a in enumerate(IATTRS) if op[2] >> i & 1]
+                    sess.expire(obj, attrs or None)
+                    for a in attrs or IATTRS:
+                        mark((oid, a), ("E",), "expire-partial" if attrs else "expire")
+                elif k == "f":
+                    for a in IATTRS:
+                        mark((oid, a), ("E",), "refresh")
+                    sql()
+                    sess.refresh(obj)
+                    for a in IATTRS:
+                        mark((oid, a), ("L", db[oid][a]), "refresh")
+                else:
+                    raise AssertionError(op)
+                classes.add({"r": "read", "s": "set", "e": "expire", "f": "refresh"}[k])
+            if ep["end"] == "commit":
+                sess.commit()
+                flush_model()
+                committed = {k: dict(v) for k, v in db.items()}
+                if cfg["eoc"]:
+                    for key in st_:
+                        mark(key, ("E",), "commit-expire")
+                in_txn[0] = False
+            else:
+                sess.rollback()
+                if in_txn[0]:
+                    db = {k: dict(v) for k, v in committed.items()}
+                    for key in st_:
+                        mark(key, ("E",), "rollback")
+                in_txn[0] = False
+            for key in st_:
+                resolve(key[0], key[1], "epoch end")
+            got_rows = {r[0]: {"a": r[1], "s": r[2]} for r in rc.execute("SELECT item.id, a, s FROM item JOIN subitem ON subitem.id = item.id")}
+            if got_rows != committed:
+                fail(f"C46/inherit/db-after-{ep['end']}", f"epoch {ei}: rows {got_rows} != model {committed}", observed=got_rows, expected=committed)
+        for oid in sorted(objs):
+            for a in IATTRS:
+                read(oid, a, "final read")
+        for f, v in flags.items():
+            if v:
+                classes.add("nt-" + f)
+        ctx.note(case, flags["fresh"] or flags["stale"], classes=classes)
+    finally:
+        if sess is not None:
+            sess.close()
+        rc.close()
+        F.drop_db(eng)
+
+
+@st.composite
+def _inherit_programs(draw):
+    n = draw(st.integers(1, 2))
+    oi = st.integers(0, n - 1)
+    epochs = []
+    for ei in range(draw(st.integers(2, 4))):
+        ext = [[draw(oi), draw(st.integers(0, 1)), draw(st.integers(4, 9))] for _ in range(draw(st.integers(1, 3)))] if ei else []
+        ops = []
+        for j in range(draw(st.integers(1, 5))):
+            k = draw(st.sampled_from(["q", "r", "s", "q", "e", "f", "r", "q", "fl"]))
+            if k == "q":
+                ops.append(["q", draw(st.integers(0, 5))])
+            elif k == "r":
+                ops.append(["r", draw(oi), draw(st.integers(0, 1))])
+            elif k == "s":
+                ops.append(["s", draw(oi), draw(st.integers(0, 1)), draw(_val)])
+            elif k == "e":
+                ops.append(["e", draw(oi), draw(st.integers(0, 3))])
+            elif k == "f":
+                ops.append(["f", draw(oi)])
+            else:
+                ops.append(["fl"])
+        epochs.append({"ext": ext, "ops": ops, "end": draw(st.sampled_from(["commit", "commit", "commit", "rollback"]))})
+    return {"cfg": {"autoflush": draw(st.booleans()), "eoc": draw(st.sampled_from([False, False, True]))}, "rows": [[draw(_val), draw(_val)] for _ in range(n)], "epochs": epochs}
+
+
+
+
 def subs(tier):
-    return [Generated("histories", check, strategy=_programs(), quick=3000, thorough=80000)]
+    return [
+        Generated("histories", check, strategy=_programs(), quick=2400, thorough=80000),
+        Generated("inherit", check_inherit, strategy=_inherit_programs(), quick=900, thorough=30000),
+    ]
